@@ -2,7 +2,8 @@
    prune_struct cs f = the structures after Dendrogram.prune with criteria list cs
    (= [min_delta; min_npix] ++ user criteria) applied to forest f. *)
 From Coq Require Import ZArith List Bool Permutation.
-From Dendro Require Import Base Tree Criteria Compute ComputeInv Prune PruneLemmas.
+From Coq Require Import Sorted.
+From Dendro Require Import Base BaseLemmas Tree Criteria Compute ComputeInv Prune PruneLemmas TrunkOrder.
 Import ListNotations.
 Open Scope Z_scope.
 
@@ -77,6 +78,23 @@ Theorem C07_noop :
     prune_struct cs f = sort_by tid f.
 Proof. exact prune_struct_noop. Qed.
 Print Assumptions C07_noop.
+
+(* ... and straight after compute the trunk already is in identifier order (fix F35), so that
+   nothing at all changes: same trunk list, same iteration order, same Newick text *)
+Theorem C07_trunk_in_identifier_order_after_compute :
+  forall shape a vals minv cs, StronglySorted (key_le tid) (compute shape a vals minv cs).
+Proof. exact compute_trunk_sorted. Qed.
+Theorem C07_trunk_in_identifier_order_after_prune :
+  forall cs f, StronglySorted (key_le tid) (prune_struct cs f).
+Proof. exact prune_trunk_sorted. Qed.
+Theorem C07_noop_after_compute :
+  forall shape a vals minv cs0 cs,
+    let G := compute shape a vals minv cs0 in
+    (forall w k, In (w, k) (fedges G) -> is_leaf k = true -> ph_ok cs (height w) k = true) ->
+    (forall r, In r G -> is_leaf r = true -> indep_of cs (town r) None = true) ->
+    prune_struct cs G = G.
+Proof. exact prune_noop_after_compute. Qed.
+Print Assumptions C07_noop_after_compute.
 
 (* recorded parameters never decrease; 0 means inherit *)
 Theorem C07_min_delta_never_decreases : forall cur arg, cur <= rec_delta cur arg.
